@@ -28,6 +28,29 @@ type Server struct {
 	// Received counts datagrams received.
 	Received atomic.Int64
 	jitter   func() time.Duration
+	last     *net.UDPAddr
+}
+
+// Trickle sends the datagrams of out to the most recent client, one every gap,
+// in the background (a BMC or a middlebox emitting stray datagrams over time).
+func (s *Server) Trickle(out [][]byte, gap time.Duration) {
+	s.mu.Lock()
+	addr := s.last
+	s.mu.Unlock()
+	if addr == nil {
+		return
+	}
+	s.wg.Add(1)
+	go func() {
+		defer s.wg.Done()
+		for _, o := range out {
+			time.Sleep(gap)
+			if s.closed.Load() {
+				return
+			}
+			s.Conn.WriteToUDP(o, addr)
+		}
+	}()
 }
 
 // SetJitter installs a function returning an extra delay per reply.
@@ -74,6 +97,7 @@ func (s *Server) loop() {
 		req := append([]byte(nil), buf[:n]...)
 		reply := s.BMC.Handle(req)
 		s.mu.Lock()
+		s.last = addr
 		s.n++
 		k := s.n
 		f := s.fault
